@@ -280,9 +280,12 @@ def run(ctx):
                                   {"kind": "lc-path", "cls": kind, "init": init, "path": path + [ev], "expected": e["obs"],
                                    "dst": e["dst"]})
                     continue
+                # one real object per (specification state, kind of the call that led there): a setter that leaves something
+                # behind for the NEXT call is seen whatever state that is
                 dk = canon(e["dst"])
-                if dk not in seen:
-                    seen.add(dk)
+                nk = dk + "|" + evname(ev)
+                if nk not in seen:
+                    seen.add(nk)
                     stack.append((dk, w, init, path + [ev]))
         total_edges += n
         ctx.note(f"{kind}: {n} transitions over {len(seen)} states replayed on the real class")
